@@ -23,6 +23,16 @@ def cmpField {α : Type} [ToJson α] (name : String) (model impl : α) : Option 
   let b := (toJson impl).compress
   if a == b then none else some s!"field={name} model={a} impl={b}"
 
+/-- compare two canonical maps (lists of (rendered key, value)) and report only the differing keys -/
+def cmpMap {V : Type} [ToJson V] (name : String) (model impl : List (String × V)) : Option String :=
+  let render (v : V) := (toJson v).compress
+  let keys := ((model.map (·.1)) ++ (impl.map (·.1))).eraseDups
+  let diffs := keys.filterMap (fun k =>
+    let a := (model.find? (·.1 == k)).map (fun p => render p.2)
+    let b := (impl.find? (·.1 == k)).map (fun p => render p.2)
+    if a == b then none else some s!"{k}: model={a.getD "∅"} impl={b.getD "∅"}")
+  if diffs.isEmpty then none else some s!"field={name} {" | ".intercalate (diffs.take 6)}"
+
 def firstSome : List (Option String) → Option String
   | [] => none
   | some s :: _ => some s
